@@ -65,6 +65,7 @@ def setup(E, shape):
     user, spec = common.make_problem(E, vk, ck, faults=make_faults(E, shape.get("faults", False)))
     n, m = spec["n"], spec["m"]
     solves = []
+    replay = dict(script=None, rcond=False, outs=[], beyond=False)
     max_solves = shape.get("max_solves", 3)
 
     class Oracle(SS.StepSolver):
@@ -86,12 +87,24 @@ def setup(E, shape):
             k = len(solves)
             if k >= max_solves:
                 raise Abort()  # bound on Newton iterations per trial step
-            if shape.get("solver_faults", True) and bool(E.fresh_bool(f"solve_fails")):
+            if replay["script"] is not None:
+                if k >= len(replay["script"]):
+                    replay["beyond"] = True
+                    raise Abort()
+                out = replay["script"][k]
+            elif shape.get("solver_faults", True) and bool(E.fresh_bool(f"solve_fails")):
+                out = "fail"
+            else:
+                out = ([E.fresh_real("dx") for _ in range(n)], [E.fresh_real("dy") for _ in range(m)])
+            replay["outs"].append(out)
+            if out == "fail":
                 solves.append(("fail", it))
                 raise SSE("injected step-solver failure")
-            dx = [E.fresh_real("dx") for _ in range(n)]
-            dy = [E.fresh_real("dy") for _ in range(m)]
-            r = SS.StepResult(it, arr(dx), arr(dy), self._active_set, None)
+            rc = None
+            if replay["rcond"]:
+                rc = E.fresh_real("rcond")  # a reported condition estimate: any positive number
+                E.assume(rc > 0)
+            r = SS.StepResult(it, arr(out[0]), arr(out[1]), self._active_set, rc)
             solves.append((r, it))
             return r
 
@@ -106,6 +119,9 @@ def setup(E, shape):
     if not cp:
         lamb_min = E.real("lamb_min", lo=0, lo_strict=True)
         kw.update(lamb_min=lamb_min)
+    else:
+        # dyadic tolerances large enough for boundary cases to exist on a coarse dyadic grid
+        kw.update(active_tol=0.25, lamb_min=2.0 ** -20)
     ast = shape.get("active_set", "Standard")
     if ast != "Standard":
         kw["active_set_type"] = P.ActiveSetType[ast]
@@ -187,7 +203,7 @@ def setup(E, shape):
         NW.Iterate = RealIterate
 
     rec["restore"] = restore
-    return dict(E=E, user=user, spec=spec, params=params, solver=solver, problem=problem, lb=lb, ub=ub, x=x, y=y, rho=rho, dt=dt, lam=lam, timer=timer, clock=clock, it=it, controller=controller, rec=rec, solves=solves, n=n, m=m, tl=tl)
+    return dict(replay=replay, E=E, user=user, spec=spec, params=params, solver=solver, problem=problem, lb=lb, ub=ub, x=x, y=y, rho=rho, dt=dt, lam=lam, timer=timer, clock=clock, it=it, controller=controller, rec=rec, solves=solves, n=n, m=m, tl=tl)
 
 
 def ref_residual(ctx, nxt):
@@ -304,6 +320,11 @@ def ctrl_tasks(tier, extra=None):
             # twin with concrete rho / dt / tolerances: all products with them are linear, so a
             # counterexample found there replays on the real arithmetic
             t.append(dict(module="ctrl", fn="h_step", shape=dict(sh, concrete_params=True), opts=o))
+    # two variables (mixed bound kinds): masks, clipping and norms over vectors
+    for c, nt, v, cons in (("DistanceRatio", "Simplified", ["boxed", "free"], ["eq0"]), ("Exact", "Full", ["boxed", "lower"], []), ("ResiduumRatio", "ActiveSet", ["fixed", "upper"], ["eq0"])):
+        sh = dict(controller=c, newton=nt, vars=v, cons=cons, faults=True)
+        sh.update(extra or {})
+        t.append(dict(module="ctrl", fn="h_step", shape=sh, opts=o))
     # active-set rules (explicit tau, smallest / largest active set)
     for ast, c, nt, cons in (("SmallestActiveSet", "DistanceRatio", "Simplified", []), ("LargestActiveSet", "DistanceRatio", "Simplified", []), ("Explicit", "Exact", "Full", []), ("SmallestActiveSet", "Exact", "ActiveSet", ["eq0"])):
         if q and cons:
@@ -316,3 +337,25 @@ def ctrl_tasks(tier, extra=None):
         for v in (["lower"], ["free"], ["fixed"]):
             t.append(dict(module="ctrl", fn="h_step", shape=dict(controller="DistanceRatio", newton="Simplified", vars=v, cons=["eq0"], faults=True), opts=o))
     return t
+
+
+def h_rcond_effect(E, shape):
+    """C09: a reported condition estimate is display data -- the same step computation with and
+    without condition numbers attached to the step results gives the same decision"""
+    ctx = setup(E, dict(shape, faults=False))
+    SC = boot.mod("step.step_control")
+    it, rho, dt = ctx["it"], ctx["rho"], ctx["dt"]
+    try:
+        r0 = ctx["controller"].compute_step(it, rho, dt, False, ctx["timer"])
+        c2 = SC.step_controller(ctx["problem"], ctx["params"])
+        if shape["controller"] in ("ResiduumRatio", "DistanceRatio"):
+            c2.controller.controller.error_sum = E.real("pi_error_sum")
+        ctx["replay"].update(script=list(ctx["replay"]["outs"]), rcond=True, outs=[])
+        del ctx["solves"][:]
+        r1 = c2.compute_step(it, rho, dt, False, ctx["timer"])
+    finally:
+        ctx["rec"]["restore"]()
+    E.prove(not ctx["replay"]["beyond"], "C09.rcond_values_do_not_change_the_newton_iterations")
+    E.prove(core.iff(bool(r0.accepted), bool(r1.accepted)) and (r0.accepted is None) == (r1.accepted is None), "C09.rcond_values_do_not_change_acceptance")
+    E.prove(r0.lamb == r1.lamb, "C09.rcond_values_do_not_change_the_step_size")
+    E.prove(land(common.eq_all(items(r0.iterate.x), items(r1.iterate.x)), common.eq_all(items(r0.iterate.y), items(r1.iterate.y))), "C09.rcond_values_do_not_change_the_iterate")
